@@ -4,3 +4,10 @@ chk("C18", "proof",
     "Theorems (Coq, closed under the global context): a signed/unsigned fact field is accepted iff it is a complete literal of the column type whose value is representable, and the stored value is the denoted one; accepted program-text constants are in range. The model follows StringUtil.h / ReadStreamCSV.h line by line and is tied on every run by running the extracted model and the real ReadFileCSV on the same generated fields (boundaries of 2^31, 2^32, 2^63, 2^64, signs, prefixes, whitespace, garbage), plus whole fact files and constants through the rebuilt souffle binary.",
     "Trusted: Coq kernel; extraction (ExtrOcamlBasic) and OCaml glue; glibc strtol/strtoul modelled by their specification; strtof not modelled (float fields are judged by an exact nearest-value predicate, exploration only); field splitting belongs to C17.",
     "Coq proof of accept<->literal-in-range + differential correspondence (extracted model vs real loader)", "DESIGN.md §6 C18")
+
+HOOK_COMMITS += ["73df3ec6f", "62c4bd982"]
+
+chk("C30", "proof",
+    "Theorems (Coq, closed): for any number of clients and any interleaving of the lock's atomic operations -- version odd iff exactly one client is in a write phase; a successful validation/upgrade was not overlapped by a completed write (with the necessary hypothesis of < 2^31 completed writes; the unbounded statement is proved false by wrap-around); abort_write restores the version outstanding leases hold; a step that does not complete its operation only happens under a concurrent writer; exhaustive exploration of 3 clients x 1 block (3 initial versions) and 2 clients x 2 blocks. Tied at step level: the real lock runs under a deterministic scheduler with a scheduling point before every atomic operation and the executed schedule is replayed in the extracted model (all results, leases, final version compared).",
+    "Trusted: Coq kernel (vm_compute in the bounded theorems); extraction + OCaml driver; cpp/vsched.h scheduler and hook H1; sequential consistency (memory orders and the acquire fence are not modelled); Waiter back-off not modelled.",
+    "Coq invariant proofs over an atomic-step state machine + step-level replay correspondence against the instrumented real lock", "DESIGN.md §6 C30")
